@@ -1013,7 +1013,8 @@ func withTimeout(f func() string) string {
 	select {
 	case s := <-done:
 		return s
-	case <-time.After(caseTimeout):
+	case <-time.After(curTimeout()):
+		noteTimeout()
 		return "timeout"
 	}
 }
